@@ -115,6 +115,8 @@ def canon_empty_path(s):
     sc, au, pa, qu, fr = split_uri(s)
     if au is not None and pa == '':
         pa = '/'
+    if qu == '':
+        qu = None       # boltons does not distinguish a present-but-empty query from an absent one (C06); "g?#s" == "g#s" here
     out = ''
     if sc is not None:
         out += sc + ':'
@@ -136,7 +138,9 @@ _name = st.sampled_from(['a', 'b', 'c', 'x', 'g', 'd;p', 'k=v', 'a,b', 'x1', '~u
                          '%2F', 'a%2Fb', '%2F..', '%3Fx', '%23y', 'c:', 'c:'])
 _bseg = st.one_of(_name, _name, _name, st.just(''))
 _rseg = st.one_of(st.sampled_from(['.', '..', '..', '', '.']), _name)
-_q = st.sampled_from(['q', 'y', 'k=v', 'a=1&b=2', 'x=y/./z', 'p=..', 'next=http://o.example/p', 'u=a://b/../c', 'r=//h/p'])
+_q = st.sampled_from(['q', 'y', 'k=v', 'a=1&b=2', 'x=y/./z', 'p=..', 'next=http://o.example/p', 'u=a://b/../c', 'r=//h/p',
+                      # a repeated key with another key in between (pair order must survive), and an empty query (path?#frag)
+                      'k=1&j=2&k=3', 'a=1&b=2&a=3&b=4', ''])
 _f = st.sampled_from(['s', 'frag', 's/./x', 'a/../b', 'top', 'http://f.example/g', 'a://b', '//x'])
 _host = st.sampled_from(['a', 'host', 'example.com', 'h.example', '10.0.0.1', '127.0.0.1', '[::1]', '[2001:db8::1]'])
 
@@ -183,7 +187,7 @@ def ref_text(r):
     kind = r['kind']
     if kind == 'full':
         return r['full']
-    q = '?' + r['query'] if r['query'] else ''
+    q = '?' + r['query'] if r['query'] is not None else ''
     f = '#' + r['fragment'] if r['fragment'] else ''
     if kind == 'empty':
         return ''
